@@ -291,6 +291,26 @@ def check_bad_sec(case, ctx):
                                 "%s(%s) [%s], attempt %d, returned a key that re-serialises as %r" % (name, enc.hex(), case["kind"], attempt, s2))
 
 
+    # the same non-point handed over as a point OBJECT (the form the derivation code uses): no key may come out either
+    if len(enc) == 65 and enc[0] == 4 and hasattr(Pub, "from_point"):
+        x, y = int.from_bytes(enc[1:33], "big"), int.from_bytes(enc[33:], "big")
+        if x < P and y < P and (x, y) != (0, 0):
+            try:
+                import ecdsa
+                jac = ecdsa.ellipticcurve.PointJacobi(ecdsa.SECP256k1.curve, x, y, 1)
+            except Exception:  # noqa: BLE001
+                ctx.count("point-object-not-constructible (not judged)")
+                return
+            for attempt in (1, 2):
+                st_, val = call(Pub.from_point, jac)
+                if st_ == "ok":
+                    st2, s2 = call(val.sec)
+                    if st2 == "ok":
+                        raise Violation("C09/reject/off-curve-point-object-accepted", "PublicKey.from_point(<Jacobian point object x=%#x y=%#x, "
+                                        "not on the curve>) returned a key that serialises as %r" % (x, y, s2))
+            ctx.count("off-curve-point-object-refused")
+
+
 def gen_hybrid(tier):
     return st.fixed_dictionaries({"k": S.scalars()})
 
